@@ -70,14 +70,14 @@ ECs == /\ Ev.e = "cs"
        /\ csAt' = Append(csAt, l)
        /\ reqs' = Append(reqs, [kind |-> Ev.kind, m |-> Ev.m, addr |-> Ev.addr, len |-> Ev.len,
                                 data |-> Ev.data, flush |-> Ev.flush, accepted |-> (Ev.kind = "write"),
-                                returned |-> FALSE])
+                                returned |-> FALSE, retAt |-> 0])
        /\ chunks' = Append(chunks, <<>>) /\ notes' = Append(notes, <<>>)
        /\ expect' = Append(expect, <<>>) /\ firstAt' = Append(firstAt, 0)
        /\ win' = IF lerrAt # 0 THEN win \cup {Len(reqs) + 1} ELSE win
        /\ UNCHANGED <<img, rdQ, lastW, lerrAt, bad, badAt>>
 
 ERet == /\ Ev.e = "ret"
-        /\ reqs' = [reqs EXCEPT ![Ev.rid].accepted = Ev.ret, ![Ev.rid].returned = TRUE]
+        /\ reqs' = [reqs EXCEPT ![Ev.rid].accepted = Ev.ret, ![Ev.rid].returned = TRUE, ![Ev.rid].retAt = l]
         /\ UNCHANGED <<chunks, notes, expect, firstAt, csAt, img, rdQ, lastW, lerrAt, win, bad, badAt>>
 
 \* the first chunk message of a read was handed to the link from inside the API call: the request
@@ -122,7 +122,11 @@ EUp == /\ Ev.e = "up"
                        /\ lastW' = [lastW EXCEPT ![Ev.m] = IF rid > @ THEN rid ELSE @]
                        /\ UNCHANGED <<expect, rdQ>>
                        /\ Fail(IF Ev.len > WC THEN "ChunkLimit"
-                               ELSE IF rid < lastW[Ev.m] THEN "WriteOrder" ELSE "ok")
+                               \* order of two writes = order of their API calls, when the calls do not
+                               \* overlap (two threads -- the application and a completion callback --
+                               \* may call at the same time; then the queue order is the library's choice)
+                               ELSE IF rid < lastW[Ev.m] /\ reqs[rid].retAt # 0 /\ reqs[rid].retAt < csAt[lastW[Ev.m]]
+                                    THEN "WriteOrder" ELSE "ok")
        /\ UNCHANGED <<reqs, notes, csAt, lerrAt, win>>
 
 ENote == /\ Ev.e = "note"
@@ -157,9 +161,13 @@ Unfinished == {i \in DOMAIN reqs : reqs[i].accepted /\ notes[i] = <<>> /\ ~MaySu
 \* disconnect notification:
 \* the library neither serves nor notifies them (known finding, KNOWN_FINDINGS.txt) -- reported
 \* under their own clause so that every other loss is still reported as such
+\* The property sets no deadline for the failure notification of a request that was outstanding
+\* when the link dropped: the request whose own acknowledgement handling triggered a
+\* sender-reported link error is notified right after the nested disconnect handling returns,
+\* i.e. after the disconnected callbacks.  What is never notified is reported at the end
+\* (Incomplete).
 EDrop == /\ Ev.e = "drop"
-         /\ Fail(IF Unfinished \ win # {} THEN "LostOnDrop"
-                 ELSE IF Unfinished # {} THEN "UnfinishedIssuedDuringDisconnect" ELSE "ok")
+         /\ Fail(IF Unfinished \cap win # {} THEN "UnfinishedIssuedDuringDisconnect" ELSE "ok")
          /\ rdQ' = [m \in DOMAIN rdQ |-> <<>>]
          /\ lerrAt' = 0
          /\ UNCHANGED <<reqs, chunks, notes, expect, firstAt, csAt, img, lastW, win>>
